@@ -1,6 +1,7 @@
 """C08 — an unedited Pretext map reproduces the input assembly."""
 import remap_lib as R
 
+EXTRA_ANCHORS = ['assembly/scripts/pretext_to_asm.py']      # files outside the property's anchors whose change escalates the quick budget (T3)
 LEVEL = "proof"
 RULE = ('null scripts (every present scaffold whole, forward, uncut; T floor/ceil; sub-texel scaffolds present or absent; last contig >= 1 texel) unpainted and painted x texel sizes x forward/reverse contigs. Non-trivial = distinct (kind, #scaffolds in map, #absent, texel size).')
 TRUSTED = ['correspondence harness props/C08.py + remap_lib.py: real BuildAssembly pipeline vs Lean `remap` on the projection `proj_full`', 'modelled not verified: Python dict/set/sort semantics as in Model/Py.lean; object identity by object ids; PretextView edit-script model (spec side)']
